@@ -35,7 +35,17 @@ S32, S64 = (1 << 31) - 1, 1 << 62
 HOWS = ['left', 'right', 'inner', 'outer']
 AUX = ('_left_map', '_right_map')
 
-RULE = ('(SC02) key columns of every dtype: all 146 ordered pairs of key dtypes within {int8..int64, uint8..uint64, bool} x '
+RULE = ('(VC02) field NAMES as data: every name merge / _ordered_merge / _unordered_merge use for a field or a pandas column of '
+        'their own (_left_map, _right_map, _a_map, _b_map, valid_l, valid_r, valid, l_i, r_i, l_k, r_k, l_k_0, r_k_0, the '
+        'suffixes _l / _r themselves, and suffixed variants of these and of ordinary names) as the name of a payload field of '
+        'the left frame, of the right frame, of both, or as the name of the key fields, x 4 modes x every truthful hint '
+        'set (streamed path with each truthful pair of unique hints, hint-free, non-selecting) on 11 small key-column pairs '
+        '(quick: the two map names with 4 pairs x all hint sets, the other names in rotation), payload kinds rotating (values '
+        'that look like a join map); destinations that already hold a field (10 names incl. the internal ones) x the same; '
+        'chains of two merges: the destination of the first (all its fields, _left_map/_right_map/valid_* included, or all '
+        'that do not collide) is the left or the right frame of the second, first merge 4 modes x truthful hint sets, second '
+        'merge 4 modes x every truthful hint set (streamed when the first was streamed), other frame with internal names. '
+        'Then (SC02) key columns of every dtype: all 146 ordered pairs of key dtypes within {int8..int64, uint8..uint64, bool} x '
         '{the same}, {float32, float64}^2, integer x float (both orders) and {S1,S2,S3,S5,S8}^2, each x 4 modes on the pandas '
         'path (hint-free / non-selecting truthful hints, sorted and unsorted, some with a second key column) and x '
         '{left,right,inner} on the streamed path (truthful unique hints, small and production chunk sizes), 2 structured-'
@@ -63,7 +73,12 @@ TRUSTED = ['the encoding of key values as integers (harness/props/C02.py _dec_ke
            'h5py / HDF5 field storage, Field.create_like, DataFrame.rename (modelled as association-list updates)',
            'numba code generation; numpy slicing semantics (np_slice / np_get of Model/MapStream.v)',
            'chunk sizes are injected by wrapping exetera.core.operations attributes with functools.partial (no source edit)']
-ASSUMPTIONS = ['key values are finite (no NaN: no order, so no truthful ordered hint), floats are multiples of 2^-60 below 1e305, '
+ASSUMPTIONS = ['the destination names the documented rule gives (name, or name + suffix when the other side maps a field of the same '
+               'name) are distinct and none of them is already in the destination (else no destination can hold the join: '
+               'ValueError on every path, checked); none of them is the name of a field the call creates for itself '
+               '(else known finding F-C02j); the destination holds no field called _a_map/_b_map/_left_map/_right_map when '
+               'the streamed path is taken (else known finding F-C02k)',
+               'key values are finite (no NaN: no order, so no truthful ordered hint), floats are multiples of 2^-60 below 1e305, '
                'fixed-string keys at most 8 bytes; the two key columns of a pair are both numeric or both fixed strings',
                'no two keys of opposite sides of an int64/uint64 or integer/float key pair have the same binary64 value '
                '(else known finding F-C02i)',
@@ -175,7 +190,7 @@ def _case_encs(case):
         if a is None and b is None:
             out.append(None)
         else:
-            out.append(_key_enc(a or _NAME_DT[ln[0]], b or _NAME_DT[rn[0]]))
+            out.append(_key_enc(a or _NAME_DT[_kind(case['L'], ln)], b or _NAME_DT[_kind(case['R'], rn)]))
     return out
 
 
@@ -206,9 +221,18 @@ def _create_key(df, name, zs, dt, enc):
     return f
 
 
-def _create(df, name, values):
+def _kd(fr):
+    """{field name: kind letter} for the fields whose name does not start with their kind (strengthening VC02)"""
+    return fr.get('kd') or {}
+
+
+def _kind(fr, name):
+    return _kd(fr).get(name, name[0])
+
+
+def _create(df, name, values, kind=None):
     np = _np
-    k = name[0]
+    k = kind or name[0]
     if k in 'kiKl':
         f = df.create_numeric(name, 'int32' if k in 'ki' else 'int64')
         arr = np.asarray(values, dtype='int32' if k in 'ki' else 'int64')
@@ -244,7 +268,7 @@ def _build(ds, tag, fr, tagged=None):
         if tagged and n in tagged:
             _create_key(df, n, v, *tagged[n])
         else:
-            _create(df, n, v)
+            _create(df, n, v, _kind(fr, n))
     return df
 
 
@@ -312,15 +336,14 @@ def _sort_rows(cols):
     return [[name, [r[i] for r in rows]] for i, (name, _) in enumerate(cols)]
 
 
-def run(case):
-    ops = _ops
-    ds = _dataset()
-    tag = {'L': _tagged(case, 'L'), 'R': _tagged(case, 'R')}
-    left = _build(ds, 'l', case['L'], tag['L'])
-    right = _build(ds, 'r', case['R'], tag['R'])
-    dest = ds.create_dataframe('d%d' % _h5['n'])
-    saved = {}
-    try:
+class _Patched(object):
+    """chunk sizes hard-wired at the call sites, injected by wrapping exetera.core.operations attributes"""
+
+    def __init__(self, case):
+        self.case, self.saved = case, {}
+
+    def __enter__(self):
+        ops, case, saved = _ops, self.case, self.saved
         if case.get('cs') is not None:
             for g in _GENS:
                 saved[g] = getattr(ops, g)
@@ -331,20 +354,38 @@ def run(case):
             saved['ordered_map_valid_indexed_stream'] = ops.ordered_map_valid_indexed_stream
             ops.ordered_map_valid_indexed_stream = functools.partial(
                 saved['ordered_map_valid_indexed_stream'], chunksize=case['mcs'], value_factor=case['vf'])
-        lo, lu, ro, ru = case['hints']
-        lkn, rkn = case['L']['kn'], case['R']['kn']
-        kw = {}
-        if case.get('ccs') is not None:
-            kw['chunk_size'] = case['ccs']
-        _df.merge(left, right, dest,
-                  left_on=lkn[0] if len(lkn) == 1 else tuple(lkn),
-                  right_on=rkn[0] if len(rkn) == 1 else tuple(rkn),
-                  left_fields=case['lf'], right_fields=case['rf'], how=case['how'],
-                  hint_left_keys_ordered=lo, hint_left_keys_unique=lu,
-                  hint_right_keys_ordered=ro, hint_right_keys_unique=ru, **kw)
-    finally:
-        for k, v in saved.items():
-            setattr(ops, k, v)
+        return self
+
+    def __exit__(self, *a):
+        for k, v in self.saved.items():
+            setattr(_ops, k, v)
+        return False
+
+
+def _merge(left, right, dest, lkn, rkn, lf, rf, how, hints, ccs):
+    lo, lu, ro, ru = hints
+    kw = {}
+    if ccs is not None:
+        kw['chunk_size'] = ccs
+    _df.merge(left, right, dest,
+              left_on=lkn[0] if len(lkn) == 1 else tuple(lkn),
+              right_on=rkn[0] if len(rkn) == 1 else tuple(rkn),
+              left_fields=lf, right_fields=rf, how=how,
+              hint_left_keys_ordered=lo, hint_left_keys_unique=lu,
+              hint_right_keys_ordered=ro, hint_right_keys_unique=ru, **kw)
+
+
+def run(case):
+    if _generic(case):
+        return _run_generic(case)
+    ds = _dataset()
+    tag = {'L': _tagged(case, 'L'), 'R': _tagged(case, 'R')}
+    left = _build(ds, 'l', case['L'], tag['L'])
+    right = _build(ds, 'r', case['R'], tag['R'])
+    dest = ds.create_dataframe('d%d' % _h5['n'])
+    with _Patched(case):
+        _merge(left, right, dest, case['L']['kn'], case['R']['kn'], case['lf'], case['rf'], case['how'], case['hints'],
+               case.get('ccs'))
     names = sorted(dest.keys())
     cols = []
     for n in names:
@@ -378,6 +419,123 @@ def run(case):
         except Exception:
             pass
     return [1 if ordered else 0, inv, cols if ordered else _sort_rows(cols)]
+
+
+# ------------------------------------------------------------------ names as data, non-empty destinations, chains (VC02)
+# A case is "generic" when a frame carries 'kd' (field kinds independent of the names), when the destination holds
+# fields before the call ('pre': [[name, [int32 values]], ...]) or when a second merge follows ('chain'):
+#   'chain': {'left': bool      the destination of the first merge is the LEFT (else the RIGHT) frame of the second
+#             'how', 'hints'    of the second merge
+#             'key': name       key field of the second merge in the first destination (an int32 field)
+#             'sel': None|[..]  left_fields / right_fields for the first destination (None: every field it holds,
+#                               '_left_map' / '_right_map' / 'valid_l' / 'valid_r' included)
+#             'O': frame, 'of': None|[..]   the other frame and its fields}
+# Result of a generic case: [ordered?, map dtype code, columns (rows jointly sorted on the pandas path), the fields
+# that were in the destination before the call].  Field types are checked against the SOURCE fields under the
+# documented naming rule; which fields are join maps / valid flags is decided by the names the rule does not produce.
+INTERNAL = ('_left_map', '_right_map', 'valid_l', 'valid_r')
+TRANSIENT = ('_a_map', '_b_map')
+
+
+def _generic(case):
+    return bool(case.get('chain') or case.get('pre') or case['L'].get('kd') or case['R'].get('kd'))
+
+
+def _final(case):
+    """(how, hints) of the last merge of the case"""
+    ch = case.get('chain')
+    return (ch['how'], ch['hints']) if ch else (case['how'], case['hints'])
+
+
+def _sig(f):
+    tn = type(f).__name__
+    if tn == 'IndexedStringField':
+        return (tn,)
+    if tn == 'CategoricalField':
+        return (tn, str(f.data.dtype), tuple(sorted((int(k), bytes(v)) for k, v in dict(f.keys).items())))
+    d = f.data
+    return (tn, str(d.dtype))
+
+
+def _canon_any(f):
+    if f.indexed:
+        return [list(s.encode()) for s in f.data[:]]
+    d = f.data[:]
+    if d.dtype.kind == 'S':
+        return [list(bytes(x)) for x in d]
+    return [[int(x)] for x in d]
+
+
+def _run_generic(case):
+    ds = _dataset()
+    i = _h5['n']
+    made = []
+
+    def frame(tag, fr):
+        made.append('%s%d' % (tag, i))
+        return _build(ds, tag, fr)
+
+    def empty(tag):
+        made.append('%s%d' % (tag, i))
+        return ds.create_dataframe('%s%d' % (tag, i))
+    try:
+        left, right = frame('l', case['L']), frame('r', case['R'])
+        dest = empty('d')
+        pre = case.get('pre') or []
+        for n, v in pre:
+            _create(dest, n, v, 'i')
+        with _Patched(case):
+            _merge(left, right, dest, case['L']['kn'], case['R']['kn'], case['lf'], case['rf'], case['how'],
+                   case['hints'], case.get('ccs'))
+            l2, r2, lf2, rf2, final = left, right, case['lf'], case['rf'], dest
+            ch = case.get('chain')
+            if ch:
+                other = frame('o', ch['O'])
+                final = empty('e')
+                if ch['left']:
+                    l2, r2, lf2, rf2, lk2, rk2 = dest, other, ch['sel'], ch['of'], [ch['key']], ch['O']['kn']
+                else:
+                    l2, r2, lf2, rf2, lk2, rk2 = other, dest, ch['of'], ch['sel'], ch['O']['kn'], [ch['key']]
+                _merge(l2, r2, final, lk2, rk2, lf2, rf2, ch['how'], ch['hints'], case.get('ccs'))
+        ln = list(l2.keys()) if lf2 is None else list(lf2)
+        rn = list(r2.keys()) if rf2 is None else list(rf2)
+        expect = {}
+        for n in ln:
+            expect[n + '_l' if n in rn else n] = _sig(l2[n])
+        for n in rn:
+            expect[n + '_r' if n in ln else n] = _sig(r2[n])
+        pre_names = [] if ch else [n for n, _ in pre]
+        cols, held, mapdts = [], [], set()
+        for n in sorted(final.keys()):
+            f = final[n]
+            if n in pre_names:
+                held.append([n, _canon_any(f)])
+                continue
+            if n in expect:
+                if _sig(f) != expect[n]:
+                    raise AssertionError('destination field %s is %s, its source is %s' % (n, _sig(f), expect[n]))
+            elif n in AUX:
+                if type(f).__name__ != 'NumericField':
+                    raise AssertionError('map field type')
+                mapdts.add(str(f.data.dtype))
+            elif n in ('valid_l', 'valid_r'):
+                if _sig(f) != ('NumericField', 'bool'):
+                    raise AssertionError('valid field dtype')
+            else:
+                raise AssertionError('unexpected destination field %s' % n)
+            cols.append([n, _canon_any(f)])
+        how, hints = _final(case)
+        ordered = bool(hints[0] and hints[2] and how != 'outer')
+        inv = None
+        if ordered:
+            inv = 1 if mapdts == {'int32'} else 2 if mapdts == {'int64'} else 0
+        return [1 if ordered else 0, inv, cols if ordered else _sort_rows(cols), held]
+    finally:
+        for nm in made:
+            try:
+                del ds[nm]
+            except Exception:
+                pass
 
 
 def warmup():
@@ -415,8 +573,8 @@ def _bytes(s):
     return list(s.encode())
 
 
-def _wire_col(name, values):
-    k = name[0]
+def _wire_col(name, values, kind=None):
+    k = kind or name[0]
     if k == 'x':
         idx, vals = [0], []
         for s in values:
@@ -437,13 +595,13 @@ def _mapped(fr, sel):
 
 def _wire_cols(case, side, sel):
     tg = _tagged(case, side)
-    return [([_bytes(n), 0, [0], [0], [[int(z)] for z in v]] if n in tg else _wire_col(n, v))
+    return [([_bytes(n), 0, [0], [0], [[int(z)] for z in v]] if n in tg else _wire_col(n, v, _kind(case[side], n)))
             for n, v in _mapped(case[side], sel)]
 
 
 def _pair_dts(case):
     ld, rd = _frame_dt(case['L']), _frame_dt(case['R'])
-    return [(ld.get(ln) or _NAME_DT[ln[0]], rd.get(rn) or _NAME_DT[rn[0]])
+    return [(ld.get(ln) or _NAME_DT[_kind(case['L'], ln)], rd.get(rn) or _NAME_DT[_kind(case['R'], rn)])
             for ln, rn in zip(case['L']['kn'], case['R']['kn'])]
 
 
@@ -507,10 +665,22 @@ def to_val(case):
     mcs = case['mcs'] if case.get('mcs') is not None else MODEL_BIG
     vf = case['vf'] if case.get('vf') is not None else 8
     ccs = case['ccs'] if case.get('ccs') is not None else MODEL_BIG
-    return [VARIANT, HOWS.index(case['how']), _hint(lo), _hint(lu), _hint(ro), _hint(ru),
-            case['L']['keys'], case['R']['keys'],
-            _wire_cols(case, 'L', case['lf']), _wire_cols(case, 'R', case['rf']),
-            _bytes('_l'), _bytes('_r'), cs, mcs, vf, ccs, key_views(case)]
+    v = [VARIANT, HOWS.index(case['how']), _hint(lo), _hint(lu), _hint(ro), _hint(ru),
+         case['L']['keys'], case['R']['keys'],
+         _wire_cols(case, 'L', case['lf']), _wire_cols(case, 'R', case['rf']),
+         _bytes('_l'), _bytes('_r'), cs, mcs, vf, ccs, key_views(case)]
+    if _generic(case):
+        pre = [_wire_col(n, vals, 'i') for n, vals in (case.get('pre') or [])]
+        ch = case.get('chain')
+        chain = []
+        if ch:
+            O = ch['O']
+            assert len(O['keys']) == 1
+            ocols = [_wire_col(n, vals, _kind(O, n)) for n, vals in _mapped(O, ch['of'])]
+            chain = [[1 if ch['left'] else 0, HOWS.index(ch['how'])] + [_hint(h) for h in ch['hints']] +
+                     [_bytes(ch['key']), [] if ch['sel'] is None else [[_bytes(n) for n in ch['sel']]], O['keys'][0], ocols]]
+        v.append([pre, chain])
+    return v
 
 
 def _dec_cols(cols):
@@ -540,7 +710,18 @@ def from_val(case, v):
     else:
         ordered, cols = model
         cols = _dec_cols(cols)
-        m = [ordered, _inv_code(case) if ordered else None, cols if ordered else _sort_rows(cols)]
+        if _generic(case):
+            pre = [] if case.get('chain') else [n for n, _ in (case.get('pre') or [])]
+            held = [c for c in cols if c[0] in pre]
+            cols = [c for c in cols if c[0] not in pre]
+            hints = _final(case)[1]
+            m = [ordered, (1 if (hints[1] or hints[3]) else 2) if ordered else None, cols if ordered else _sort_rows(cols), held]
+        else:
+            m = [ordered, _inv_code(case) if ordered else None, cols if ordered else _sort_rows(cols)]
+    if _generic(case) and not case.get('chain'):
+        pre = [n for n, _ in (case.get('pre') or [])]
+        k = len(pre)
+        return m, _sort_rows(_dec_cols(spec[k:]))          # the specification answer starts with the fields already held
     return m, _sort_rows(_dec_cols(spec))
 
 
@@ -687,6 +868,8 @@ def spec_ok(case, impl, spec, mode):
     non-decreasing key order on the streamed path"""
     if impl == 'EXC:ValueError' and entry_too_long(case):
         return True
+    if _generic(case):
+        return _spec_ok_generic(case, impl, spec)
     if not isinstance(impl, list):
         return False
     ordered, inv, cols = impl
@@ -709,6 +892,39 @@ def spec_ok(case, impl, spec, mode):
     return True
 
 
+def _spec_names(spec):
+    return [n for n, _ in spec]
+
+
+def names_not_distinct(case, spec):
+    """the documented naming rule gives two destination fields the same name (a field 'p_l' next to a clashing 'p', or
+    a field of the call that is already in the destination): no destination can hold the join; outside the property,
+    every path refuses with ValueError"""
+    ns = _spec_names(spec)
+    pre = [] if case.get('chain') else [n for n, _ in (case.get('pre') or [])]
+    return len(set(ns)) < len(ns) or bool(set(ns) & set(pre))
+
+
+def _spec_ok_generic(case, impl, spec):
+    if names_not_distinct(case, spec):
+        return impl == 'EXC:ValueError'
+    if not isinstance(impl, list):
+        return False
+    ordered, inv, cols, held = impl
+    if len({len(v) for _, v in cols}) > 1:
+        return False
+    pay = set(_spec_names(spec))
+    # the fields merge adds on its own account are those named like them that the naming rule does not produce
+    data = [c for c in cols if c[0] in pay or c[0] not in INTERNAL]
+    if _sort_rows(data) != spec:
+        return False
+    if not case.get('chain'):
+        # the fields the destination held before the call are still there, unchanged
+        if held != sorted([[n, [[int(x)] for x in v]] for n, v in (case.get('pre') or [])]):
+            return False
+    return True
+
+
 def equal(case, impl, expected, mode):
     if isinstance(expected, str):
         if expected.startswith('OOB'):
@@ -722,6 +938,19 @@ def equal(case, impl, expected, mode):
 def known(case, impl, model, spec, mode):
     if long_run(case) and impl == 'EXC:ValueError':
         return 'F-C02g'
+    if _generic(case):
+        pre = [n for n, _ in (case.get('pre') or [])]
+        # F-C02k: the streamed path creates '_a_map' / '_b_map' / '_left_map' / '_right_map' in the destination and then
+        # looks the maps up BY NAME: a destination that already holds a field of one of these names makes the hinted call
+        # raise, or (as found) take that field for a join map
+        if set(pre) & set(AUX + TRANSIENT) and is_ordered(case) and not case.get('chain'):
+            return 'F-C02k'
+        # F-C02j: a payload field whose documented destination name is a name merge uses for a field of its own
+        # ('_left_map' / '_right_map' on the streamed path, 'valid_l' / 'valid_r' on the pandas path when a side has
+        # unmatched rows): the call raises ValueError (the model, statement by statement, says so too)
+        if impl == 'EXC:ValueError' and model == 'EXC:ValueError' and not names_not_distinct(case, spec) \
+                and (set(_spec_names(spec)) | set(pre)) & set(INTERNAL):
+            return 'F-C02j'
     # F-C02i: mixed int64/uint64/float key columns are compared as binary64; suppressed only where two keys of opposite
     # sides collapse AND (integer/float pair on the pandas path, where the conversion is a cast of both columns that the
     # model reproduces) the implementation does exactly what the model predicts
@@ -761,7 +990,8 @@ def features(case, model):
     ln = [n for n, _ in _mapped(case['L'], case['lf'])]
     rn = [n for n, _ in _mapped(case['R'], case['rf'])]
     if set(ln) & set(rn): f.append('name-clash')
-    for n in set(x[0] for x in ln + rn): f.append('kind:' + n)
+    for n in set([_kind(case['L'], x) for x in ln] + [_kind(case['R'], x) for x in rn]): f.append('kind:' + n)
+    f += _name_features(case)
     encs = _case_encs(case)
     if any(e is not None for e in encs):
         for (a, b), e in zip(_pair_dts(case), encs):
@@ -802,7 +1032,7 @@ def features(case, model):
             if n_out == 0: f.append('empty-result')
             inv = S32 if (lu or ru) else S64
             for m in maps:
-                flat = [x[0] for x in m]
+                flat = [x[0] if len(x) == 1 else None for x in m]      # (a payload field may be called like a map field)
                 if inv in flat: f.append('map-has-sentinel')
                 for s in range(0, len(flat), mcs):
                     if flat[s:s + mcs] and all(x == inv for x in flat[s:s + mcs]):
@@ -904,6 +1134,11 @@ def _truth(h, L, R):
 
 
 def gen(tier, rng):
+    if os.environ.get('C02_SECTIONS') == 'names':
+        # dev knob: only sections G-I (names as data, destinations holding fields, chains); the corpus still runs first
+        for c in _gen_names(tier, rng):
+            yield c
+        return
     n = 3 if tier == 'quick' else 4
     seqs = list(_nondecr(n, 3))
     cnt = 0
@@ -989,6 +1224,10 @@ def gen(tier, rng):
         c['mcs'] = rng.randint(1, 6); c['ccs'] = rng.randint(1, 6); c['vf'] = rng.choice([8, 2, 3])
         yield c
         cnt += 1
+    # G-I. names as data: payload / key fields called like the fields merge creates itself, destinations that already
+    # hold fields, chains of two merges (strengthening VC02); placed before F so that a budget cut never drops them
+    for c in _gen_names(tier, rng):
+        yield c
     # F. key columns of every dtype, different on the two sides, values at the extremes and their aliases
     for c in _gen_key_dtypes(tier, rng, cnt):
         yield c
@@ -1242,6 +1481,255 @@ def _gen_key_dtypes(tier, rng, cnt0):
                 yield c
 
 
+# ------------------------------------------------------------------ G-I. names as data (strengthening VC02)
+# every name merge / _ordered_merge / _unordered_merge use for a field or a pandas column of their own
+_INTERNAL_NAMES = ['_left_map', '_right_map', '_a_map', '_b_map', 'valid_l', 'valid_r', 'valid', 'l_i', 'r_i', 'l_k', 'r_k',
+                   'l_k_0', 'r_k_0', '_l', '_r']
+# key columns: (left, right) with every truthfulness of the unique hints, unmatched rows at start / middle / end
+_NAME_KEYS = [([1, 2, 4], [2, 3, 4]), ([0, 1, 3, 5], [1, 2, 3, 6]), ([1, 2, 2, 4], [2, 3, 4]), ([1, 3, 3], [0, 1, 3, 5]),
+              ([1, 2, 4], [2, 2, 5]), ([0, 2, 3], [0, 0, 3, 3, 4]), ([1, 1, 2], [1, 2, 2, 3]), ([2, 2, 3], [1, 2, 2]),
+              ([], [1, 2]), ([1, 2], []), ([2], [2])]
+
+
+def _ref_pairs(how, L, R):
+    """the relational join as (left row | None, right row | None), in the order of Spec/MergeSpec.v join_pairs"""
+    def left_pairs(A, B):
+        out = []
+        for i, x in enumerate(A):
+            ms = [j for j, y in enumerate(B) if y == x]
+            out += [(i, j) for j in ms] if ms else [(i, None)]
+        return out
+    if how == 'left':
+        return left_pairs(L, R)
+    if how == 'right':
+        return [(i, j) for (j, i) in left_pairs(R, L)]
+    inner = [(i, j) for i, x in enumerate(L) for j, y in enumerate(R) if x == y]
+    if how == 'inner':
+        return inner
+    return left_pairs(L, R) + [(None, j) for j, y in enumerate(R) if y not in L]
+
+
+def _hint_sets(how, L, R, quick, cnt):
+    """truthful hint combinations: the streamed path with every truthful pair of unique hints, hint-free, and a
+    non-selecting set"""
+    out = []
+    if how != 'outer':
+        for lu in ((False, True) if _strict(L) else (False,)):
+            for ru in ((False, True) if _strict(R) else (False,)):
+                out.append([True, lu, True, ru])
+    out.append([None] * 4)
+    out.append(_truth([None, 'u', True, 'u'] if cnt % 2 else [True, 'u', None, None], L, R))
+    return out
+
+
+def _map_like(n, m, cnt):
+    """payload values that look like a join map into a frame of m rows (so that code which takes the column for a map
+    reads inside the frame and silently produces other rows)"""
+    m = max(1, m)
+    return [((n - 1 - i) if cnt % 2 else (i // 2)) % m for i in range(n)]
+
+
+def _named_frames(L, R, lname, rname, kind, cnt, same_key=False, lkey='k', rkey='kr'):
+    nl, nr = len(L), len(R)
+    m = min(nl, nr)
+    def col(name, n, side):
+        if name is None:
+            return []
+        vals = _map_like(n, m, cnt) if kind in 'il' else _payload(kind, n, side)
+        return [[name, vals]]
+    rkey = lkey if same_key else rkey
+    fl = {'keys': [L], 'kn': [lkey], 'cols': [['ia', _payload('i', nl, 'l')]] + col(lname, nl, 'l'), 'kd': {lkey: 'k'}}
+    fr = {'keys': [R], 'kn': [rkey], 'cols': [['xp', _payload('x', nr, 'r')]] + col(rname, nr, 'r'), 'kd': {rkey: 'k'}}
+    if lname: fl['kd'][lname] = kind
+    if rname: fr['kd'][rname] = kind
+    return fl, fr
+
+
+def _sizes(cnt):
+    if cnt % 3 == 0:
+        return dict(cs=None, mcs=None, vf=None, ccs=None)
+    return dict(cs=[4, 5, 3][cnt % 3], mcs=1 + cnt % 4, vf=8, ccs=1 + (cnt // 2) % 3)
+
+
+def _dest1_names(case):
+    """names of the fields the destination holds after the (first) merge of a case without internal-name clashes"""
+    ln = [n for n, _ in _mapped(case['L'], case['lf'])]
+    rn = [n for n, _ in _mapped(case['R'], case['rf'])]
+    names = [n + '_l' if n in rn else n for n in ln] + [n + '_r' if n in ln else n for n in rn]
+    L, R = case['L']['keys'][0], case['R']['keys'][0]
+    lo, lu, ro, ru = case['hints']
+    if is_ordered(case):
+        if case['how'] == 'inner':
+            names += ['_left_map', '_right_map']
+        elif case['how'] == 'left':
+            names += ['_right_map'] + ([] if ru else ['_left_map'])
+        else:
+            names += ['_left_map'] + ([] if lu else ['_right_map'])
+    else:
+        pairs = _ref_pairs(case['how'], L, R)
+        if any(i is None for i, _ in pairs): names.append('valid_l')
+        if any(j is None for _, j in pairs): names.append('valid_r')
+    return names
+
+
+def _gen_names(tier, rng):
+    from harness import hot
+    quick = (tier == 'quick')
+    cnt = 0
+    kinds = 'ilixsif'
+    # G. one merge; a payload field of the left frame, of the right frame or of both is called like an internal field
+    #    (or like an internal field with a suffix); the key fields are called like the pandas key columns
+    names = list(_INTERNAL_NAMES) + [n + sfx for n in ('_left_map', '_right_map', 'valid', 'ia', 'k') for sfx in ('_l', '_r')]
+    for name in names:
+        other = {'_left_map': '_right_map', '_right_map': '_left_map', 'valid_l': 'valid_r', 'valid_r': 'valid_l',
+                 '_a_map': '_b_map', '_b_map': '_a_map', 'l_i': 'r_i', 'r_i': 'l_i', 'l_k': 'r_k', 'r_k': 'l_k'}.get(name, 'ia')
+        for place in ((name, None), (None, name), (name, name), (name, other)):
+            for how in HOWS:
+                # quick tier: the names of the two join-map fields with 4 key pairs (both / right / left / no side unique)
+                # and every truthful hint set; every other name with one key pair and one hint set, both in rotation
+                hot_name = name in AUX
+                kps = [0, 1, 2, 4, 6, 8] if not quick else ([0, 2, 4, 6] if hot_name else [(cnt * 5) % len(_NAME_KEYS)])
+                for kp in kps:
+                    L, R = _NAME_KEYS[kp]
+                    hs = _hint_sets(how, L, R, quick, cnt)
+                    if quick and not hot_name:
+                        hs = [hs[(cnt // 3) % len(hs)]]
+                    for h in hs:
+                        kind = kinds[cnt % len(kinds)]
+                        lk, rk, same = [('k', 'kr', False), ('k', 'kr', True), ('l_k', 'r_k', False), ('r_k', 'l_k', False),
+                                        ('l_i', 'r_i', False), ('_left_map', '_right_map', False)][(cnt // 3) % 6] \
+                            if cnt % 4 == 1 else ('k', 'kr', cnt % 4 == 2)
+                        if lk in place or rk in place:
+                            lk, rk = 'k', 'kr'
+                        fl, fr = _named_frames(L, R, place[0], place[1], kind, cnt, same, lk, rk)
+                        c = {'how': how, 'hints': h, 'L': fl, 'R': fr, 'lf': None, 'rf': None}
+                        c.update(_sizes(cnt))
+                        if cnt % 5 == 4:
+                            c['lf'] = [n for n, _ in reversed(_frame_fields(fl))]
+                        yield c
+                        cnt += 1
+    # H. the destination already holds fields
+    for pre_name in ['zz', '_a_map', '_b_map', '_left_map', '_right_map', 'valid_l', 'valid_r', 'ia', 'k', 'l_i']:
+        for how in HOWS:
+            for kp in (range(len(_NAME_KEYS)) if not quick else [[0, 2, 4, 6][cnt % 4]]):
+                L, R = _NAME_KEYS[kp]
+                for h in _hint_sets(how, L, R, quick, cnt):
+                    if h[0] and h[2] and how in ('left', 'right') and (h[3] if how == 'left' else h[1]) and \
+                            pre_name in ('_a_map', '_left_map' if how == 'left' else '_right_map'):
+                        # F-C02k where the code as found takes the field that was already there for a join map (silent):
+                        # witnesses live in corpus/C02/VC02-names.json; the cross-cutting checks C10/C11 that re-run this
+                        # generator compare with the model (= the repaired code, work/VC02/fix-F-C02k.diff) only
+                        cnt += 1
+                        continue
+                    fl, fr = _named_frames(L, R, None, None, 'i', cnt)
+                    c = {'how': how, 'hints': h, 'L': fl, 'R': fr, 'lf': None, 'rf': None,
+                         'pre': [[pre_name, _map_like(3 + cnt % 2, min(len(L), len(R)), cnt)]]}
+                    c.update(_sizes(cnt))
+                    yield c
+                    cnt += 1
+    # I. chains: the destination of one merge is the left / right frame of the next
+    reps = 1
+    if hot.changed():
+        reps *= 2
+    okeys = [[0, 1, 3, 4, 5], [1, 1, 2, 4], [2, 3], [0, 1, 2, 3, 4, 5, 9, 10], []]
+    onames = [['xo'], ['_left_map'], ['_right_map'], ['valid_l', 'ia'], ['_left_map', '_right_map'], ['ia_l', 'xp'], ['k_l', 'valid_r']]
+    for rep in range(reps):
+        for kp in (range(len(_NAME_KEYS)) if not quick else [0, 2, 4, 6]):
+            L, R = _NAME_KEYS[kp]
+            for how1 in HOWS:
+                hs1 = _hint_sets(how1, L, R, quick, cnt)
+                if quick:
+                    st = [h for h in hs1 if h[0] and h[2]]
+                    hs1 = ([st[-1]] + ([st[(cnt + rep) % (len(st) - 1)]] if len(st) > 1 else []) if st else []) + [[None] * 4]
+                for h1 in hs1:
+                    same = (cnt % 3 == 0)
+                    fl, fr = _named_frames(L, R, None, None, 'i', cnt, same)
+                    c1 = {'how': how1, 'hints': h1, 'L': fl, 'R': fr, 'lf': None, 'rf': None}
+                    pairs = _ref_pairs(how1, L, R)
+                    streamed1 = is_ordered(c1)
+                    # the key of the second merge: the key field of the side that is never empty (left for left / inner /
+                    # outer-as-far-as-it-goes, right for right), under its destination name
+                    if how1 == 'right':
+                        kname = (fr['kn'][0] + '_r') if same else fr['kn'][0]
+                        kcol = [R[j] for _, j in pairs]
+                    else:
+                        kname = (fl['kn'][0] + '_l') if same else fl['kn'][0]
+                        kcol = [L[i] if i is not None else 0 for i, _ in pairs]
+                    d1 = _dest1_names(c1)
+                    for left2 in (True, False):
+                        for how2 in HOWS:
+                            O = okeys[cnt % len(okeys)]
+                            hs2 = []
+                            if streamed1 and how2 != 'outer' and kcol == sorted(kcol):
+                                for du in ((False, True) if _strict(kcol) else (False,)):
+                                    for ou in ((False, True) if _strict(O) else (False,)):
+                                        hs2.append([True, du, True, ou] if left2 else [True, ou, True, du])
+                            if quick and len(hs2) > 2:
+                                hs2 = [hs2[-1], hs2[cnt % (len(hs2) - 1)]]
+                            du = True if (len(set(kcol)) == len(kcol)) else None
+                            hs2.append([None] * 4 if cnt % 2 else ([None, du, None, None] if left2 else [None, None, None, du]))
+                            for h2 in hs2:
+                                on = onames[cnt % len(onames)]
+                                fo = {'keys': [O], 'kn': ['ko'], 'kd': {'ko': 'k'},
+                                      'cols': [[n, _payload('x', len(O), 'r') if n[0] == 'x' else _map_like(len(O), len(kcol), cnt + j)]
+                                               for j, n in enumerate(on)]}
+                                for n in on:
+                                    fo['kd'][n] = 'x' if n[0] == 'x' else 'i'
+                                # fields of the first destination: all of them, or all that do not collide with a field
+                                # the second merge creates for itself
+                                c2probe = {'how': how2, 'hints': h2, 'L': {'keys': [kcol if left2 else O]}, 'R': {'keys': [O if left2 else kcol]}}
+                                own2 = []
+                                if is_ordered(c2probe):
+                                    lu2, ru2 = h2[1], h2[3]
+                                    own2 = ['_left_map', '_right_map'] if how2 == 'inner' else \
+                                        (['_right_map'] + ([] if ru2 else ['_left_map'])) if how2 == 'left' else \
+                                        (['_left_map'] + ([] if lu2 else ['_right_map']))
+                                else:
+                                    own2 = ['valid_l', 'valid_r']
+                                for sel in ((None, 'safe') if not quick else (('safe',) if cnt % 3 else (None,))):
+                                    c = dict(c1)
+                                    c['chain'] = {'left': left2, 'how': how2, 'hints': h2, 'key': kname,
+                                                  'sel': None if sel is None else [n for n in d1 if n not in own2],
+                                                  'O': fo, 'of': None if sel is None else [n for n in ['ko'] + on if n not in own2]}
+                                    c.update(_sizes(cnt))
+                                    if c['cs'] is not None:
+                                        c['cs'] = 6            # no run of equal keys of these frames reaches it
+                                    yield c
+                                    cnt += 1
+
+
+def _name_features(case):
+    if not _generic(case):
+        return []
+    f = ['names:generic']
+    ln = [n for n, _ in _mapped(case['L'], case['lf'])]
+    rn = [n for n, _ in _mapped(case['R'], case['rf'])]
+    for side, ns in (('left', ln), ('right', rn)):
+        for n in ns:
+            if n in _INTERNAL_NAMES:
+                f.append('names:%s-field-called:%s' % (side, n))
+            elif n.endswith(('_l', '_r')):
+                f.append('names:%s-field-with-suffix' % side)
+    for n in case['L']['kn'] + case['R']['kn']:
+        if n in _INTERNAL_NAMES:
+            f.append('names:key-called:' + n)
+    for n, _ in case.get('pre') or []:
+        f.append('names:destination-holds:' + n)
+    ch = case.get('chain')
+    if ch:
+        f.append('chain:first-%s-%s' % (case['how'], 'streamed' if is_ordered(case) else 'pandas'))
+        h = ch['hints']
+        st2 = bool(h[0] and h[2] and ch['how'] != 'outer')
+        f.append('chain:second-%s-%s' % (ch['how'], 'streamed' if st2 else 'pandas'))
+        f.append('chain:first-destination-is-' + ('left' if ch['left'] else 'right'))
+        f.append('chain:fields-' + ('all' if ch['sel'] is None else 'subset'))
+        if st2: f.append('chain:second-hints:%d%d%d%d' % tuple(_hint(x) for x in h))
+        for n in (_dest1_names(case) if ch['sel'] is None else ch['sel']):
+            if n in INTERNAL:
+                f.append('chain:carries-' + n)
+    return f
+
+
 def shrink(case):
     for side in ('L', 'R'):
         fr = case[side]
@@ -1278,4 +1766,8 @@ LEVEL_TEXT = ('Theorems in coq/Props/C02.v: the streamed path of the repaired me
               'destination of the join of the keys themselves (ordered_merge_key_embedding); conversions that are not '
               'injective on the keys present change the join (narrowing_key_cast_refuted: int64->int32, int64->uint16, '
               'float64->float32, S5->S3; binary64_key_comparison_refuted: F-C02i).')
+LEVEL_TEXT += (' Names as data (VC02, Model/MergeChain.v): merge into a destination that holds fields and chains of two merges are '
+               'modelled (merge_into_empty_destination); payload_called_like_absent_map_is_data and '
+               'chained_merge_map_field_is_payload are worked instances (a field called _right_map is an ordinary column where '
+               'the call writes no right map, also when it comes from an earlier merge); payload_called_like_map_refuted is F-C02j.')
 LEVEL_NOTE = 'Model tied to /repo by the differential run only; see evidence for theorem list and which are full / partial / refuted.'
